@@ -1,0 +1,143 @@
+//go:build verif
+
+// Package verifhook holds observation and scheduling hooks used by external
+// verification tooling. This file is only compiled with the "verif" build tag.
+//
+// Jitter(site, idx) is called by pipeline workers immediately before they hand
+// a result to the next stage. It records (site, idx) in a trace and, when
+// jitter is enabled, delays the calling goroutine by an amount that is a pure
+// function of (seed, site, idx), so that completion order differs from input
+// order in a reproducible way.
+//
+// Note(site, value) records a value (used for hash-map visit orders).
+package verifhook
+
+import (
+	"fmt"
+	"os"
+	"runtime"
+	"strconv"
+	"sync"
+	"time"
+)
+
+// Event is one hook observation.
+type Event struct {
+	Kind  byte // 'J' jitter site reached, 'N' note
+	Site  string
+	Idx   int
+	Value string
+	Seq   uint64
+}
+
+var (
+	mu      sync.Mutex
+	seed    uint64
+	enabled bool
+	trace   []Event
+	seq     uint64
+	record  bool
+	logFile *os.File
+)
+
+func init() {
+	if s := os.Getenv("VERIF_JITTER_SEED"); s != "" {
+		if v, err := strconv.ParseUint(s, 10, 64); err == nil && v != 0 {
+			seed = v
+			enabled = true
+		}
+	}
+	if p := os.Getenv("VERIF_HOOK_LOG"); p != "" {
+		f, err := os.OpenFile(p, os.O_CREATE|os.O_WRONLY|os.O_APPEND, 0644)
+		if err == nil {
+			logFile = f
+			record = true
+		}
+	}
+}
+
+// SetJitter switches scheduling jitter on (seed != 0) or off (seed == 0).
+func SetJitter(s uint64) {
+	mu.Lock()
+	seed = s
+	enabled = s != 0
+	mu.Unlock()
+}
+
+// SetRecord switches trace recording on or off and clears the trace.
+func SetRecord(on bool) {
+	mu.Lock()
+	record = on
+	trace = trace[:0]
+	mu.Unlock()
+}
+
+// Drain returns the trace recorded so far and clears it.
+func Drain() []Event {
+	mu.Lock()
+	out := make([]Event, len(trace))
+	copy(out, trace)
+	trace = trace[:0]
+	mu.Unlock()
+	return out
+}
+
+func mix(x uint64) uint64 {
+	x += 0x9e3779b97f4a7c15
+	x = (x ^ (x >> 30)) * 0xbf58476d1ce4e5b9
+	x = (x ^ (x >> 27)) * 0x94d049bb133111eb
+	return x ^ (x >> 31)
+}
+
+func hashSite(s string) uint64 {
+	var h uint64 = 1469598103934665603
+	for i := 0; i < len(s); i++ {
+		h ^= uint64(s[i])
+		h *= 1099511628211
+	}
+	return h
+}
+
+func add(e Event) {
+	mu.Lock()
+	if record {
+		seq++
+		e.Seq = seq
+		if logFile != nil {
+			fmt.Fprintf(logFile, "%c\t%s\t%d\t%s\t%d\n", e.Kind, e.Site, e.Idx, e.Value, e.Seq)
+		} else {
+			trace = append(trace, e)
+		}
+	}
+	mu.Unlock()
+}
+
+// Jitter delays the caller pseudo-randomly (when enabled) and records the
+// order in which (site, idx) pairs pass this point.
+func Jitter(site string, idx int) {
+	mu.Lock()
+	on, s := enabled, seed
+	mu.Unlock()
+	if on {
+		h := mix(s ^ mix(hashSite(site)^uint64(idx)*0x9e3779b97f4a7c15))
+		switch h % 8 {
+		case 0, 1:
+			// no delay
+		case 2, 3:
+			n := int((h >> 8) % 6)
+			for i := 0; i <= n; i++ {
+				runtime.Gosched()
+			}
+		case 4, 5, 6:
+			time.Sleep(time.Duration(20+(h>>8)%400) * time.Microsecond)
+		default:
+			time.Sleep(time.Duration(500+(h>>8)%2500) * time.Microsecond)
+		}
+	}
+	add(Event{Kind: 'J', Site: site, Idx: idx})
+}
+
+// Note records a value observed at a site.
+func Note(site string, value string) {
+	add(Event{Kind: 'N', Site: site, Value: value})
+}
